@@ -60,6 +60,8 @@ class XSchema(tg.Schema):
                     out.append('%sunique "%s";' % (q2, " ".join(self.rel_path(n, l) for l in u)))
             if n.kind == "container" and n.presence:
                 out.append('%spresence "p";' % q2)
+            if getattr(n, "when", None):
+                out.append('%swhen "%s";' % (q2, n.when))      # law-only schemas (the model has no XPath)
             if n.kind in ("leaf", "leaflist"):
                 out.append(q2 + n.ty.yang())
             if n.kind not in ("case",) and n.config != pconfig:
